@@ -148,6 +148,21 @@ theorem C05_applied_fields (base r : Resources) (m : Memory) (c : Cpu)
 
 /-! ### chain level: the model refines the specification walk -/
 
+private def updOf (id : Str) (r : Resources) (ign : Bool := false) : Update :=
+  { containerId := id, resources := some r, ignoreFailure := ign }
+
+/-- the chain of the examples below: three plugins answer an update request of `c0`
+    (requested: pids 5); the second plugin's update of `ctrA` is marked ignore-failure and names
+    cpu shares (free) and then pids (owned by the first plugin): it is dropped, its claim of cpu
+    shares stays -/
+private def chain3 : List (Plugin × Response) :=
+  [(str "10-a", { updates := [updOf (str "ctrA") { pids := some 1 }, updOf (str "c0") { memory := some { limit := some 3 } }] }),
+   (str "20-b", { updates := [updOf (str "ctrA") { cpu := some { shares := some 9 }, pids := some 2 } true] }),
+   (str "30-c", { updates := [updOf (str "ctrA") { cpu := some { quota := some 4 } }, updOf (str "c0") { pids := some 7 }] })]
+
+private def req3 : Resources := { pids := some 5 }
+private def base3 : Cid → Resources := specBase (.update (str "c0")) req3
+
 /-- **The model refines the walk.** For a request started in a fresh collector state and a chain
     in which no single update names one item twice, after a successful request
     (i) every entry of the reply's update list (third-party entries and the own entry) carries
@@ -167,6 +182,18 @@ theorem C05_walk_refines (st0 st' : State) (rs : List (Plugin × Response))
   refine ⟨fun e he => ?_, fun c it hc => ?_⟩
   · rw [replyUpdates_vals st' ok e he, rel.vals]
   · exact rel.taken c it (by rw [run_kind _ st0 st' _ h]; exact hc)
+
+-- chain3 satisfies the hypotheses; the walk holds pids 1 / quota 4 / no shares for ctrA, and the
+-- dropped update's claim of cpu shares is taken in the walk and owned (by 20-b) in the ledger
+example :
+    (∀ u ∈ flatUpdates chain3, (setsUpd u).Nodup) ∧
+    (let r := (walk base3 chain3).get base3 (str "ctrA")
+     (r.pids, (r.cpu.getD {}).shares, (r.cpu.getD {}).quota)) = (some 1, none, some 4) ∧
+    (walk base3 chain3).taken.contains (str "ctrA", Item.cpuShares) = true ∧
+    (match run Quirks.fixed (initUpdate (str "c0") req3) (answeredAll chain3) with
+     | .ok st => st.owners.owner (str "ctrA") Item.cpuShares
+     | .error _ => none) = some (str "20-b") := by decide
+
 
 /-- **Exact fields (C05, value clause), every request kind.** For an update request of `id`
     with any requested resources `req`, a stop request, or the creation of `c0`: after a
@@ -190,6 +217,14 @@ theorem C05_exact_fields (st0 st' : State) (req : Resources) (rs : List (Plugin 
   rw [hb] at this
   exact this
 
+-- on chain3 the request succeeds and both returned entries (ctrA, then c0 last) equal the walk
+example :
+    (match run Quirks.fixed (initUpdate (str "c0") req3) (answeredAll chain3) with
+     | .ok st => (replyUpdates st).map fun (e : Option Update) => e.map fun (e : Update) =>
+         (e.containerId, decide (e.resources = some ((walk base3 chain3).get base3 e.containerId)))
+     | .error _ => []) = [some (str "ctrA", true), some (str "c0", true)] := by decide
+
+
 /-- **Entries are overlays of the applied updates.** Every returned entry is its base overlaid,
     in chain order, with exactly the updates the walk applies to its target — nothing of any
     other update reaches it. -/
@@ -204,6 +239,13 @@ theorem C05_entry_overlay (st0 st' : State) (rs : List (Plugin × Response))
   intro e he
   rw [(C05_walk_refines st0 st' rs h1 h2 h3 hnd h).1 e he, walk_eq, foldl_get]
   rfl
+
+-- of the five updates of chain3 the walk applies four: all but the ignore-failure one
+example :
+    (flatUpdates chain3).map (·.ignoreFailure) = [false, false, true, false, false] ∧
+    (appliedFrom base3 {} (flatUpdates chain3)).map (·.ignoreFailure) = [false, false, false, false] ∧
+    ((appliedFrom base3 {} (flatUpdates chain3)).filter fun u => u.containerId = str "ctrA").length = 2 := by decide
+
 
 /-- **Ignored conflicting update, chain level.** If the update `u` at some position of the
     chain's update lists names an item that is taken when the walk reaches it (by
@@ -227,6 +269,22 @@ theorem C05_ignored_drop_chain (st0 st' : State) (rs : List (Plugin × Response)
   intro e he
   rw [C05_entry_overlay st0 st' rs h1 h2 h3 hnd h e he, hflat, appliedFrom_append]
   simp only [appliedFrom, not_applies_of_taken _ u it hit htaken, Bool.false_eq_true, ↓reduceIte, List.nil_append]
+
+-- chain3 splits at its third update (20-b's, ignore-failure); its item pids is taken there
+example :
+    flatUpdates chain3 =
+      [updOf (str "ctrA") { pids := some 1 }, updOf (str "c0") { memory := some { limit := some 3 } }] ++
+      updOf (str "ctrA") { cpu := some { shares := some 9 }, pids := some 2 } true ::
+      [updOf (str "ctrA") { cpu := some { quota := some 4 } }, updOf (str "c0") { pids := some 7 }] ∧
+    Item.pids ∈ setsUpd (updOf (str "ctrA") { cpu := some { shares := some 9 }, pids := some 2 } true) ∧
+    (str "ctrA", Item.pids) ∈
+      ([updOf (str "ctrA") { pids := some 1 }, updOf (str "c0") { memory := some { limit := some 3 } }].foldl
+        (simUpdate base3) {}).taken ∧
+    -- and no value of it is returned: cpu shares of ctrA stay unset
+    (match run Quirks.fixed (initUpdate (str "c0") req3) (answeredAll chain3) with
+     | .ok st => st.updates.map fun e => ((e.resources.getD {}).cpu.getD {}).shares
+     | .error _ => []) = [none] := by decide
+
 
 /-- **Single source per field.** For every returned entry and every item `it`, among the
     updates overlaid on the entry (`C05_entry_overlay`) either exactly one names `it`, and the
@@ -276,10 +334,35 @@ theorem C05_single_source (st0 st' : State) (rs : List (Plugin × Response))
     have hnone : ∀ v ∈ app, it ∉ setsUpd v := fun v hv hitv => hex ⟨v, hv, hitv⟩
     exact ⟨hnone, by rw [hres']; exact fold_field_keep it app _ hnone⟩
 
-/-! ### the hypotheses are satisfiable -/
+-- both alternatives occur on chain3 for the entry of ctrA: cpu quota comes from 30-c's update
+-- alone, cpu shares (named only by the dropped update) keep the base value
+example :
+    let app := (appliedFrom base3 {} (flatUpdates chain3)).filter fun u => u.containerId = str "ctrA"
+    app = [updOf (str "ctrA") { pids := some 1 }] ++ updOf (str "ctrA") { cpu := some { quota := some 4 } } :: [] ∧
+    Item.cpuQuota ∈ setsUpd (updOf (str "ctrA") { cpu := some { quota := some 4 } }) ∧
+    (∀ v ∈ app, Item.cpuShares ∉ setsUpd v) ∧
+    fieldVal Item.cpuShares ((walk base3 chain3).get base3 (str "ctrA")) = fieldVal Item.cpuShares (base3 (str "ctrA")) ∧
+    fieldVal Item.cpuQuota ((walk base3 chain3).get base3 (str "ctrA")) = FVal.int (some 4) := by decide
 
-private def updOf (id : Str) (r : Resources) (ign : Bool := false) : Update :=
-  { containerId := id, resources := some r, ignoreFailure := ign }
+/-- **The hypothesis `NoDupItems` is needed.** An ignore-failure update naming hugepage size
+    `2M` twice and then a block I/O class: the ledger stops at the repeated size, so the class
+    is not claimed and a later plugin's class is applied (`some "y"`); the walk's dropped branch
+    (`free.eraseDups`) takes the class as well and yields none. Such chains are outside the
+    property's stated domain (driver guard `dupWithin`: "one response names an item twice"). -/
+theorem C05_walk_needs_nodup :
+    let dup : List (Plugin × Response) :=
+      [(str "10-a", { updates := [updOf (str "ctrA")
+          { hugepages := [{ pageSize := str "2M", limit := 1 }, { pageSize := str "2M", limit := 2 }],
+            blockioClass := some (str "x") } true] }),
+       (str "20-b", { updates := [updOf (str "ctrA") { blockioClass := some (str "y") }] })]
+    ¬ (∀ u ∈ flatUpdates dup, (setsUpd u).Nodup) ∧
+    (match run Quirks.fixed initStop (answeredAll dup) with
+     | .ok st => st.updates.map fun e => (e.resources.getD {}).blockioClass
+     | .error _ => []) = [some (str "y")] ∧
+    ((walk (specBase .stop {}) dup).get (specBase .stop {}) (str "ctrA")).blockioClass = none := by decide
+
+
+/-! ### the hypotheses are satisfiable -/
 
 -- own entry last, third-party entries once each although ctrA is named twice
 example :
